@@ -38,6 +38,9 @@ AbstractParameterAliasable::AbstractParameterAliasable(const AbstractParameterAl
 
 AbstractParameterAliasable& AbstractParameterAliasable::operator=(const AbstractParameterAliasable& ap)
 {
+  if (this == &ap)
+    return *this;
+
   AbstractParametrizable::operator=(ap);
 
   // Forget the previous independent parameters and alias listeners, which refer to the replaced parameters:
